@@ -45,8 +45,9 @@ type Outcome struct {
 	Err    error
 	Values []any
 	Bytes  []byte
-	// Err2 / Bytes2: what was written to port 2.
-	Bytes2 []byte
+	// Values2 / Bytes2: what was written to port 2.
+	Values2 []any
+	Bytes2  []byte
 
 	Capped    bool // the capture limit was hit and the evaluation was cancelled
 	TimedOut  bool // the deadline cancelled the evaluation (it still returned)
@@ -215,6 +216,9 @@ type Cfg struct {
 	Global *eval.Ns
 	// Name of the source.
 	Name string
+	// OnStart, if set, is called with the function that interrupts this
+	// evaluation, before the evaluation starts.
+	OnStart func(cancel func())
 }
 
 type capture struct {
@@ -300,6 +304,9 @@ func (r *Runner) Run(code string, cfg Cfg) *Outcome {
 	}
 	ecfg := eval.EvalCfg{Ports: ports, Interrupts: ctx, Global: cfg.Global}
 
+	if cfg.OnStart != nil {
+		cfg.OnStart(cancel)
+	}
 	var gid atomic.Int64
 	gid.Store(-1)
 	fin := make(chan struct{})
@@ -378,7 +385,7 @@ loop:
 		done1()
 		done2()
 		out.Values, out.Bytes = c1.values, c1.bytes
-		out.Bytes2 = c2.bytes
+		out.Values2, out.Bytes2 = c2.values, c2.bytes
 		out.Capped = capped.Load()
 		out.TimedOut = timedOut
 		if out.Panic != nil {
@@ -489,5 +496,20 @@ func (r *Runner) settledHang(evalGID int) (sig, dump string, running bool) {
 		// waiting for input from outside the evaluation: not a deadlock
 		return "", b.allText, false
 	}
-	return "hang:" + st + "@" + b.evalG.Top, b.allText, false
+	// the class of the deadlock: where the evaluation goroutine waits, and
+	// where the other interpreter goroutines of this evaluation are stuck
+	// (the harness's own capture readers are not part of it)
+	tops := map[string]bool{}
+	for _, g := range ParseDump(b.allText) {
+		if g.ID == b.evalG.ID || !g.Elv || strings.Contains(g.Text, "evalrun.newCapturePort") {
+			continue
+		}
+		tops[g.Top] = true
+	}
+	var ts []string
+	for t := range tops {
+		ts = append(ts, strings.TrimPrefix(t, "src.elv.sh/pkg/"))
+	}
+	sort.Strings(ts)
+	return "hang:" + st + "@" + b.evalG.Top + "[" + strings.Join(ts, ",") + "]", b.allText, false
 }
